@@ -9,7 +9,6 @@ namespace Y0
 theorem step_line1 (topo : MG Name → Except Err (List Name)) (I : IdIn) (h : I.X = []) :
     step topo I = .ok (.done (IdDsl.sumSafe I.est (diff' I.G.nodes I.Y))) := by
   unfold step
-  simp only [h, List.isEmpty_nil, if_true]
-  rfl
+  simp [h]
 
 end Y0
